@@ -189,7 +189,21 @@ func c16Job(t *testing.T, raw json.RawMessage) (any, error) {
 						return true
 					}
 					st.Inputs++
+					// what decoding a valid encoding gives must not depend on what was decoded before (the malformed
+					// neighbours below): decode it before and after them
+					before, e0, p0 := unmarshalSafe(append([]byte(nil), enc...), ut.T, param)
 					mutateAndDecode(st, ut, param, enc, a.Slow, a.Tier == "thorough")
+					if !a.Slow && e0 == nil && p0 == "" {
+						after, e1, p1 := unmarshalSafe(append([]byte(nil), enc...), ut.T, param)
+						switch {
+						case p1 != "":
+							st.find("decoder-panic/"+panicClass(p1)+"/after-earlier-inputs", fmt.Sprintf("decoding the valid encoding %s into %s (params %q) panicked after its malformed neighbours had been decoded: %s", hexHead(enc, 48), ut.Name, param, oneLine(p1, 140)))
+						case e1 != nil:
+							st.find("decoding-depends-on-earlier-calls", fmt.Sprintf("the valid encoding %s decoded into %s (params %q) before its malformed neighbours were decoded, and fails afterwards: %v", hexHead(enc, 48), ut.Name, param, e1))
+						case !normEqual(before, after):
+							st.find("decoding-depends-on-earlier-calls", fmt.Sprintf("the valid encoding %s decodes into a different %s (params %q) after its malformed neighbours were decoded", hexHead(enc, 48), ut.Name, param))
+						}
+					}
 					return true
 				})
 			}
